@@ -328,6 +328,21 @@ def _loop_thread(r):
     return getattr(r, "_Runnable__thread")
 
 
+def loop_gone(lt):
+    """The loop thread object is absent or has finished running.  Deliberately not join()/is_alive(): CPython 3.12 can
+    raise 'release unlocked lock' when several threads join one thread at the same moment, and the controllers under
+    test do join it."""
+    return lt is None or (lt.ident is not None and lt.ident not in sys._current_frames())
+
+
+def await_loop_gone(r, timeout=60.0):
+    t0 = time.time()
+    while not loop_gone(_loop_thread(r)):
+        if time.time() - t0 > timeout:
+            raise MachineryError("loop thread did not end after the final stop")
+        time.sleep(0.0005)
+
+
 def _in_threading(th):
     """The thread sits in a blocking primitive of threading.py (join / Event.wait): it touches no field of the
     Runnable before it is woken."""
@@ -358,7 +373,7 @@ def run_gated(sched, prestarted):
         if want in ("pre", "do", "sleep", "wkE", "wkX", "wtE", "idle"):
             return st == want
         if want == "dead":
-            return t == 0 and st == "run" and (lt is None or (lt.ident is not None and not lt.is_alive()))
+            return t == 0 and st == "run" and loop_gone(lt)
         if want == "blocked":
             th = lt if t == 0 else workers[t]
             return st == "run" and _in_threading(th)
@@ -400,11 +415,7 @@ def run_gated(sched, prestarted):
         gates.open()
         _tl.actor = 3
         invoke(r, rec, 3, "stopTN")
-        lt = _loop_thread(r)
-        if lt is not None and lt.ident is not None:
-            lt.join(30)
-            if lt.is_alive():
-                raise MachineryError("loop thread did not end after the final stop")
+        await_loop_gone(r)
         invoke(r, rec, 3, "wait")
         for w in workers.values():
             with w.cv:
@@ -468,12 +479,10 @@ def run_free(seed):
     t1.join(60)
     _tl.actor = 3
     invoke(r, rec, 3, "stopTN")
-    lt = _loop_thread(r)
-    if lt is not None and lt.ident is not None:
-        lt.join(60)
+    await_loop_gone(r)
     t2.join(60)
-    if t1.is_alive() or t2.is_alive() or (lt is not None and lt.is_alive()):
-        raise MachineryError("free-running trace %d: a thread did not finish" % seed)
+    if t1.is_alive() or t2.is_alive():
+        raise MachineryError("free-running trace %d: a controller thread did not finish" % seed)
     invoke(r, rec, 3, "wait")
     _tl.actor = None
     return rec.ev
@@ -554,7 +563,7 @@ def run_notifier(hist, threaded):
         t0 = time.time()
         lt = getattr(nm, "_Runnable__thread", None)
         while not drained.wait(0.05):
-            if lt is not None and not lt.is_alive():
+            if loop_gone(lt):
                 break
             if time.time() - t0 > 60:
                 raise MachineryError("notification thread neither delivered the sentinel nor died within 60 s")
@@ -583,11 +592,7 @@ def run_calls(calls):
         invoke(r, rec, 1, kd)
     _tl.actor = 3
     invoke(r, rec, 3, "stopTN")
-    lt = _loop_thread(r)
-    if lt is not None and lt.ident is not None:
-        lt.join(60)
-        if lt.is_alive():
-            raise MachineryError("loop thread did not end")
+    await_loop_gone(r)
     invoke(r, rec, 3, "wait")
     _tl.actor = None
     return rec.ev
@@ -749,6 +754,15 @@ def judge_notifier(ctx, traces, cases, what):
                    {"line": line, "trace": traces[ti], "case": cases[ti]}, replay=cases[ti])
 
 
+def pmap(pool, f, jobs, timeout=2400):
+    """pool.map that cannot hang the check."""
+    import multiprocessing
+    try:
+        return pool.map_async(f, jobs).get(timeout)
+    except multiprocessing.TimeoutError:
+        raise MachineryError("worker pool did not finish %s within %d s" % (getattr(f, "__name__", f), timeout))
+
+
 def chunks(xs, n):
     n = max(1, n)
     return [xs[i:i + n] for i in range(0, len(xs), n)]
@@ -805,6 +819,9 @@ def _run(ctx, pool):
         "is not exercised")
     K()
     jobs = design_runs(ctx)
+    if os.environ.get("C18_SKIP_DESIGN"):          # development aid (mutation runs): the design runs do not depend on /repo
+        jobs = []
+        ctx.extra["design_runs_skipped"] = True
     ex = ThreadPoolExecutor(max_workers=3 if quick else 4)
     futs = [(n, ex.submit(f)) for n, f in jobs]
     variant = probe_variant()
@@ -836,7 +853,7 @@ def _run(ctx, pool):
     # ---- backoff law -----------------------------------------------------------------------------
     maxlen = 4 if quick else 6
     seqs = [s for n in range(1, maxlen + 1) for s in itertools.product(OUTS5, repeat=n)]
-    out = pool.map(_backoff_chunk, [(c, GRID) for c in chunks(seqs, len(seqs) // (4 * nproc) + 1)])
+    out = pmap(pool, _backoff_chunk, [(c, GRID) for c in chunks(seqs, len(seqs) // (4 * nproc) + 1)])
     traces = [t for ch in out for t in ch]
     cases = [{"family": "backoff", "seq": list(s), "params": [p[0], p[1], list(p[2])]} for s in seqs for p in GRID]
     ctx.count(evaluations=len(traces), nontrivial=sum(1 for c in cases if set(c["seq"]) & {"backoff", "exc", "base"}))
@@ -861,7 +878,7 @@ def _run(ctx, pool):
     ctx.extra["gated_exhaustive"] = ["GA", "GC"] + ([] if quick else ["GB"])
     gtr, gcases, ndiv = [], [], 0
     for name, scheds, pre in fam:
-        res = pool.map(_gated_chunk, [(c, pre) for c in chunks(scheds, len(scheds) // (3 * nproc) + 1)])
+        res = pmap(pool, _gated_chunk, [(c, pre) for c in chunks(scheds, len(scheds) // (3 * nproc) + 1)])
         k = 0
         for ch in res:
             for tr, div in ch:
@@ -884,8 +901,19 @@ def _run(ctx, pool):
 
     # ---- sequential call sequences (no gate holds; the loop runs freely) ---------------------------------------
     ckinds = ["start", "stopTW", "stopFW", "stopTN", "wait"]
-    cseqs = [c for n in range(1, (3 if quick else 4) + 1) for c in itertools.product(ckinds, repeat=n)]
-    res = pool.map(_calls_chunk, chunks(cseqs, len(cseqs) // (3 * nproc) + 1))
+
+    def returns(c):          # wait() without timeout on a service nobody stops would never return
+        stopped = True
+        for kd in c:
+            if kd == "start":
+                stopped = False
+            elif kd.startswith("stop"):
+                stopped = True
+            elif not stopped:
+                return False
+        return True
+    cseqs = [c for n in range(1, (3 if quick else 4) + 1) for c in itertools.product(ckinds, repeat=n) if returns(c)]
+    res = pmap(pool, _calls_chunk, chunks(cseqs, len(cseqs) // (3 * nproc) + 1))
     ctr = [t for ch in res for t in ch]
     ccases = [{"family": "calls", "calls": list(c)} for c in cseqs]
     ctx.count(evaluations=len(ctr), nontrivial=sum(1 for c in cseqs if "start" in c and c.index("start") < len(c) - 1))
@@ -895,7 +923,7 @@ def _run(ctx, pool):
     # ---- free-running threads --------------------------------------------------------------------
     nfree = 240 if quick else 2400
     seeds = [ctx.seed * 100000 + i for i in range(nfree)]
-    res = pool.map(_free_chunk, chunks(seeds, nfree // (2 * nproc) + 1))
+    res = pmap(pool, _free_chunk, chunks(seeds, nfree // (2 * nproc) + 1))
     ftr = [t for ch in res for t in ch]
     fcases = [{"family": "free", "seed": s} for s in seeds]
 
@@ -931,7 +959,7 @@ def _run(ctx, pool):
         hists = tc.parse_histories(res)
         if len(hists) < 200:
             raise MachineryError("notification generator produced only %d histories" % len(hists))
-        out = pool.map(_notifier_chunk, [(c, threaded) for c in chunks(hists, len(hists) // (3 * nproc) + 1)])
+        out = pmap(pool, _notifier_chunk, [(c, threaded) for c in chunks(hists, len(hists) // (3 * nproc) + 1)])
         ntr = [t for ch in out for t in ch]
         ncases = [{"family": "notifier", "history": h, "threaded": threaded} for h in hists]
         ctx.count(evaluations=len(ntr),
